@@ -150,6 +150,33 @@ func mapNonNil(m ssa.Value, in ssa.Instruction) bool {
 	case *ssa.MakeMap:
 		return true
 	}
+	// a field of a local struct variable whose only assignment in the function is
+	// a make(map...) that dominates the store
+	if u, ok := m.(*ssa.UnOp); ok && u.Op == token.MUL {
+		if fa, ok := u.X.(*ssa.FieldAddr); ok {
+			if al, ok := fa.X.(*ssa.Alloc); ok {
+				var stores []*ssa.Store
+				whole := false
+				for _, ref := range *al.Referrers() {
+					switch x := ref.(type) {
+					case *ssa.FieldAddr:
+						if x.Field == fa.Field {
+							stores = append(stores, facts.StoresTo(x)...)
+						}
+					case *ssa.Store:
+						if x.Addr == ssa.Value(al) {
+							whole = true
+						}
+					}
+				}
+				if !whole && len(stores) == 1 {
+					if _, isMk := facts.ResolveFree(stores[0].Val).(*ssa.MakeMap); isMk && facts.Dominates(stores[0], in) {
+						return true
+					}
+				}
+			}
+		}
+	}
 	return nonNilGuarded(in.Block(), facts.Term(m))
 }
 
